@@ -51,7 +51,7 @@ def run(ctx, rep):
     fadt_ctor(f, rep)
     # matrix cells: the index rule is shared with C12 (a value assigned to (i, j) must land at the row-major offset)
     import rules.C12 as C12
-    C12.hmat(f, rep); C12.slit(f, rep)
+    C12.hmat(f, rep); C12.slit(f, rep, with_checksum=False)
 
 def check_struct(f, rep, ty, ctor, items, source, self_view, table=False):
     subj = '%s::%s' % (ty, ctor or 'self')
